@@ -274,7 +274,9 @@ def install_route(app, log, req, cur):
                 try:
                     run_effs(app.response, effs)
                     if pre:
-                        pre(app)
+                        said = pre(app)
+                        if isinstance(said, str):
+                            return said            # the handler answers with what it read
                     return finish(log, res)
                 except Exception as e:
                     from ombott import HTTPResponse
